@@ -127,7 +127,11 @@ func (c *Conn) Read(p []byte) (int, error) {
 		if c.pos < len(c.in) {
 			if c.gates[c.pos] {
 				if c.OnBlocked != nil {
-					c.OnBlocked(c.pos)
+					// the callback may release the gate (it runs without the lock)
+					pos := c.pos
+					c.mu.Unlock()
+					c.OnBlocked(pos)
+					c.mu.Lock()
 				}
 				for c.gates[c.pos] && !c.closed {
 					c.cond.Wait()
